@@ -49,7 +49,13 @@ pub open spec fn slot_of(u: ObjUpvalue) -> int {
 impl ObjUpvalue {
     //@fn file=yarel/src/object.rs path=ObjUpvalue::new ret=r
     //@  sig "*mut Value" => "usize"
-    //@  ensures r.data == ObjUpvalueState::Open(address), r.next is None
+    //@  ensures r.data == ObjUpvalueState::Open(address), r.next is None, r.owner is None
+    //@end
+
+    // an open upvalue created for a slot of `owner`'s value stack names that fiber (the collector traces it: unit gc_trace)
+    //@fn file=yarel/src/object.rs path=ObjUpvalue::with_owner ret=r props=C06,C01
+    //@  sig "*mut Value" => "usize"
+    //@  ensures r.data == ObjUpvalueState::Open(address), r.next is None, r.owner == Some(owner)
     //@end
 
     // object.rs get(): reads through the raw slot pointer when open (outside Verus); closed cells return their value
@@ -64,8 +70,9 @@ impl ObjUpvalue {
     //@  ensures match self.data { ObjUpvalueState::Open(a) => predicate.ensures((a,), r), ObjUpvalueState::Closed(_) => !r }
     //@end
 
-    //@fn file=yarel/src/object.rs path=ObjUpvalue::close
+    //@fn file=yarel/src/object.rs path=ObjUpvalue::close props=C06,C01
     //@  ensures final(self).data is Closed, final(self).next == old(self).next
+    //@  ensures @a_closed_upvalue_no_longer_pins_the_fiber final(self).owner is None
     //@  ensures old(self).data matches ObjUpvalueState::Closed(v) ==> final(self).data == ObjUpvalueState::Closed(v)
     //@end
 }
@@ -92,13 +99,15 @@ impl UvHeap {
     { unimplemented!() }
 }
 
-//@struct file=yarel/src/object.rs name=ObjFiber keepfields=open_upvalues addfield "pub uvheap: UvHeap" addfield "pub ghost open_list: Seq<int>"
+//@struct file=yarel/src/object.rs name=ObjFiber keepfields=open_upvalues addfield "pub uvheap: UvHeap" addfield "pub ghost open_list: Seq<int>" addfield "pub ghost self_id: int"
 
 pub open spec fn slot_at(h: Map<int, ObjUpvalue>, l: Seq<int>, i: int) -> int { slot_of(h[l[i]]) }
 pub open spec fn cell_ok(h: Map<int, ObjUpvalue>, l: Seq<int>, i: int) -> bool { h.dom().contains(l[i]) && h[l[i]].data is Open }
 pub open spec fn link_ok(h: Map<int, ObjUpvalue>, l: Seq<int>, i: int) -> bool {
     if i + 1 < l.len() { h[l[i]].next matches Some(g) && g.id() == l[i + 1] } else { h[l[i]].next is None }
 }
+// an open cell names the fiber whose stack its slot belongs to (so tracing the cell keeps that stack alive: C01)
+pub open spec fn owner_ok(h: Map<int, ObjUpvalue>, l: Seq<int>, i: int, fid: int) -> bool { h[l[i]].owner matches Some(g) && g.id() == fid }
 pub open spec fn head_ok(head: Option<UvCell>, l: Seq<int>) -> bool {
     if l.len() == 0 { head is None } else { head matches Some(g) && g.id() == l[0] }
 }
@@ -112,6 +121,7 @@ impl ObjFiber {
         &&& head_ok(self.open_upvalues, l)
         &&& (forall|i: int| 0 <= i < l.len() ==> #[trigger] cell_ok(h, l, i))
         &&& (forall|i: int| 0 <= i < l.len() ==> #[trigger] link_ok(h, l, i))
+        &&& (forall|i: int| 0 <= i < l.len() ==> #[trigger] owner_ok(h, l, i, self.self_id))
         &&& (forall|i: int, j: int| 0 <= i < j < l.len() ==> #[trigger] slot_at(h, l, i) > #[trigger] slot_at(h, l, j))
     }
 }
@@ -133,7 +143,7 @@ pub proof fn lemma_close_head(f0: ObjFiber, f1: ObjFiber, c: ObjUpvalue)
         f1.open_list == f0.open_list.subrange(1, f0.open_list.len() as int),
         f1.uvheap.cells == f0.uvheap.cells.insert(f0.open_list[0], c),
         c.next == f0.uvheap.cells[f0.open_list[0]].next,
-        f1.open_upvalues == c.next,
+        f1.open_upvalues == c.next, f1.self_id == f0.self_id,
     ensures
         f1.wf(),
         forall|i: int| 1 <= i < f0.open_list.len() ==> f1.uvheap.cells[#[trigger] f0.open_list[i]] == f0.uvheap.cells[f0.open_list[i]],
@@ -148,6 +158,9 @@ pub proof fn lemma_close_head(f0: ObjFiber, f1: ObjFiber, c: ObjUpvalue)
     assert forall|i: int| 0 <= i < l1.len() implies #[trigger] link_ok(h1, l1, i) by {
         assert(l1[i] == l0[i + 1]); assert(link_ok(h0, l0, i + 1)); assert(h1[l0[i + 1]] == h0[l0[i + 1]]);
         if i + 1 < l1.len() { assert(l1[i + 1] == l0[i + 2]); }
+    }
+    assert forall|i: int| 0 <= i < l1.len() implies #[trigger] owner_ok(h1, l1, i, f1.self_id) by {
+        assert(l1[i] == l0[i + 1]); assert(owner_ok(h0, l0, i + 1, f0.self_id)); assert(h1[l0[i + 1]] == h0[l0[i + 1]]);
     }
     assert forall|i: int, j: int| 0 <= i < j < l1.len() implies #[trigger] slot_at(h1, l1, i) > #[trigger] slot_at(h1, l1, j) by {
         assert(l1[i] == l0[i + 1]); assert(l1[j] == l0[j + 1]);
@@ -170,8 +183,8 @@ pub proof fn lemma_capture_insert(f0: ObjFiber, f1: ObjFiber, k: int, c: int, lo
         f1.open_list == f0.open_list.insert(k, c),
         k == 0 ==> f1.uvheap.cells =~= f0.uvheap.cells.insert(c, c1),
         k > 0 ==> f1.uvheap.cells =~= f0.uvheap.cells.insert(f0.open_list[k - 1], p1).insert(c, c1),
-        c1.data == ObjUpvalueState::Open(location), c1.next == up,
-        k > 0 ==> p1.data == f0.uvheap.cells[f0.open_list[k - 1]].data && (p1.next matches Some(g) && g.id() == c),
+        c1.data == ObjUpvalueState::Open(location), c1.next == up, (c1.owner matches Some(g) && g.id() == f0.self_id), f1.self_id == f0.self_id,
+        k > 0 ==> p1.data == f0.uvheap.cells[f0.open_list[k - 1]].data && p1.owner == f0.uvheap.cells[f0.open_list[k - 1]].owner && (p1.next matches Some(g) && g.id() == c),
         k == 0 ==> (f1.open_upvalues matches Some(g) && g.id() == c),
         k > 0 ==> f1.open_upvalues == f0.open_upvalues,
     ensures
@@ -194,6 +207,10 @@ pub proof fn lemma_capture_insert(f0: ObjFiber, f1: ObjFiber, k: int, c: int, lo
     assert forall|i: int| 0 <= i < l1.len() implies #[trigger] cell_ok(h1, l1, i) by {
         if i < k { assert(l1[i] == l0[i]); assert(cell_ok(h0, l0, i)); }
         else if i > k { assert(l1[i] == l0[i - 1]); assert(cell_ok(h0, l0, i - 1)); }
+    }
+    assert forall|i: int| 0 <= i < l1.len() implies #[trigger] owner_ok(h1, l1, i, f1.self_id) by {
+        if i < k { assert(l1[i] == l0[i]); assert(owner_ok(h0, l0, i, f0.self_id)); }
+        else if i > k { assert(l1[i] == l0[i - 1]); assert(owner_ok(h0, l0, i - 1, f0.self_id)); }
     }
     assert forall|i: int| 0 <= i < l1.len() implies #[trigger] link_ok(h1, l1, i) by {
         if i < k - 1 { assert(l1[i] == l0[i]); assert(l1[i + 1] == l0[i + 1]); assert(link_ok(h0, l0, i)); }
@@ -248,18 +265,18 @@ pub proof fn lemma_close_exit(f0: ObjFiber, f1: ObjFiber, k: int, index: usize)
 impl ObjFiber {
     // Closing from slot `index` upwards: exactly the cells whose slot is >= index leave the list, closed; the others
     // are untouched and stay linked.
-    //@fn file=yarel/src/object.rs path=ObjFiber::close_upvalues
+    //@fn file=yarel/src/object.rs path=ObjFiber::close_upvalues props=C06,C01
     //@  rewrite R19
     //@  subst "&self.stack[index] as *const _" => "stack_slot_addr(index)"
     //@  subst "self .open_upvalues .unwrap() .borrow()" => "self.uvheap.get(self.open_upvalues.unwrap())"
     //@  subst "upvalue.borrow_mut()" => "self.uvheap.get_mut(upvalue)"
     //@  requires old(self).wf()
-    //@  ensures final(self).wf()
+    //@  ensures final(self).wf(), final(self).self_id == old(self).self_id
     //@  ensures forall|i: int| 0 <= i < old(self).open_list.len() && slot_at(old(self).uvheap.cells, old(self).open_list, i) >= index ==> final(self).uvheap.cells[#[trigger] old(self).open_list[i]].data is Closed && !final(self).open_list.contains(old(self).open_list[i])
     //@  ensures forall|i: int| 0 <= i < old(self).open_list.len() && slot_at(old(self).uvheap.cells, old(self).open_list, i) < index ==> final(self).uvheap.cells[#[trigger] old(self).open_list[i]] == old(self).uvheap.cells[old(self).open_list[i]] && final(self).open_list.contains(old(self).open_list[i])
     //@  ensures forall|i: int| 0 <= i < final(self).open_list.len() ==> #[trigger] slot_at(final(self).uvheap.cells, final(self).open_list, i) < index
     //@  at body.start let ghost mut k: int = 0; proof { lemma_distinct(*old(self)); }
-    //@  loop 0 invariant 0 <= k <= old(self).open_list.len(), self.wf(), old(self).wf()
+    //@  loop 0 invariant 0 <= k <= old(self).open_list.len(), self.wf(), old(self).wf(), self.self_id == old(self).self_id
     //@  loop 0 invariant self.open_list =~= old(self).open_list.subrange(k, old(self).open_list.len() as int)
     //@  loop 0 invariant forall|v: usize| #[trigger] predicate.requires((v,))
     //@  loop 0 invariant forall|v: usize, r: bool| #[trigger] predicate.ensures((v,), r) ==> r == (v >= index)
@@ -281,6 +298,7 @@ pub struct NewClosure { }
 // bytes ahead, the frame's slot base, the enclosing closure's upvalues and the new closure's upvalue vector
 pub struct Vm {
     pub fib: ObjFiber,
+    pub ghost fiber_id: int,            // identity of the cell `Vm.fiber` roots (the active fiber; handle coherence: unit `fiber`)
     pub ghost code: Seq<u8>,
     pub ghost ip: int,
     pub ghost slot_base: int,
@@ -297,8 +315,12 @@ impl Vm {
     fn active_fiber_mut(&mut self) -> (r: &mut ObjFiber)
         ensures *r == old(self).fib, final(self).fib == *final(r), final(self).code == old(self).code, final(self).ip == old(self).ip,
             final(self).slot_base == old(self).slot_base, final(self).enclosing == old(self).enclosing, final(self).fresh == old(self).fresh, final(self).next_count == old(self).next_count,
+            final(self).fiber_id == old(self).fiber_id,
     { unimplemented!() }
-    pub open spec fn same_instr(&self, o: &Vm) -> bool { self.code == o.code && self.slot_base == o.slot_base && self.enclosing == o.enclosing && self.next_count == o.next_count }
+    pub open spec fn same_instr(&self, o: &Vm) -> bool { self.code == o.code && self.slot_base == o.slot_base && self.enclosing == o.enclosing && self.next_count == o.next_count && self.fiber_id == o.fiber_id }
+    // `self.fiber.as_ref().expect(..).as_gc()`: the handle of the active fiber
+    #[verifier::external_body]
+    fn active_fiber_handle(&self) -> (r: Gc<RefCell<ObjFiber>>) ensures r.id() == self.fiber_id { unimplemented!() }
     // ---- the Closure instruction's environment (assumed)
     #[verifier::external_body]
     fn read_byte(&mut self) -> (r: u8)
@@ -337,18 +359,21 @@ impl Vm {
     // Capturing stack slot `location`: the cell already open for that slot is returned (so all closures capturing the
     // variable share one cell), otherwise exactly one fresh cell is linked in at its sorted position; every other open
     // cell keeps its slot and stays in the list.
-    //@fn file=yarel/src/vm.rs path=Vm::capture_upvalue ret=r
+    //@fn file=yarel/src/vm.rs path=Vm::capture_upvalue ret=r props=C06,C01
     //@  rewrite R19
     //@  subst "unsafe { self.active_fiber().stack.as_ptr().offset(location as isize) }" => "stack_slot_addr(location)"
     //@  subst "let mut prev_upvalue = None;" => "let mut prev_upvalue: Option<UvCell> = None;"
     //@  subst "upvalue.unwrap().borrow()" => "self.active_fiber().uvheap.get(upvalue.unwrap())"
     //@  subst "upvalue.borrow()" => "self.active_fiber().uvheap.get(upvalue)"
     //@  subst "Root::new(RefCell::new(ObjUpvalue::new(loc_addr as *mut _)))" => "self.active_fiber_mut().uvheap.alloc(ObjUpvalue::new(loc_addr))"
+    //@  subst "self.fiber.as_ref().expect(\"Expected active fiber.\").as_gc()" => "self.active_fiber_handle()"
+    //@  subst "Root::new(RefCell::new(ObjUpvalue::with_owner( loc_addr as *mut _, owner, )))" => "self.active_fiber_mut().uvheap.alloc(ObjUpvalue::with_owner(loc_addr, owner))"
     //@  subst "uv.borrow_mut()" => "self.active_fiber_mut().uvheap.get_mut(uv)"
     //@  subst "created_upvalue.borrow_mut()" => "self.active_fiber_mut().uvheap.get_mut(created_upvalue.as_gc())"
-    //@  requires old(self).fib.wf()
-    //@  ensures final(self).fib.wf()
+    //@  requires old(self).fib.wf(), old(self).fib.self_id == old(self).fiber_id
+    //@  ensures final(self).fib.wf(), final(self).fib.self_id == old(self).fib.self_id
     //@  ensures final(self).fib.open_list.contains(r.id()) && final(self).fib.uvheap.cells[r.id()].data == ObjUpvalueState::Open(location)
+    //@  ensures @open_cell_names_the_fiber_whose_stack_holds_the_variable final(self).fib.uvheap.cells[r.id()].owner matches Some(g) && g.id() == old(self).fiber_id
     //@  ensures forall|i: int| 0 <= i < old(self).fib.open_list.len() ==> final(self).fib.open_list.contains(#[trigger] old(self).fib.open_list[i]) && final(self).fib.uvheap.cells[old(self).fib.open_list[i]].data == old(self).fib.uvheap.cells[old(self).fib.open_list[i]].data
     //@  ensures (exists|i: int| 0 <= i < old(self).fib.open_list.len() && #[trigger] slot_at(old(self).fib.uvheap.cells, old(self).fib.open_list, i) == location) ==> final(self).fib.open_list == old(self).fib.open_list && final(self).fib.uvheap.cells == old(self).fib.uvheap.cells
     //@  ensures final(self).fib.open_list.len() <= old(self).fib.open_list.len() + 1
@@ -367,6 +392,7 @@ impl Vm {
     //@  loop 0 decreases self.fib.open_list.len() - k
     //@  at loop0.start proof { assert(cell_ok(self.fib.uvheap.cells, self.fib.open_list, k)); assert(link_ok(self.fib.uvheap.cells, self.fib.open_list, k)); }
     //@  at loop0.end proof { k = k + 1; if k < self.fib.open_list.len() { assert(cell_ok(self.fib.uvheap.cells, self.fib.open_list, k)); } }
+    //@  before_stmt "return upvalue;" proof { assert(owner_ok(self.fib.uvheap.cells, self.fib.open_list, k, self.fib.self_id)); }
     //@  before_stmt "let created_upvalue =" proof { if k > 0 { assert(cell_ok(self.fib.uvheap.cells, self.fib.open_list, k - 1)); } }
     //@  at body.tail proof { self.fib.open_list = self.fib.open_list.insert(k, created_upvalue.id()); lemma_capture_insert(old(self).fib, self.fib, k, created_upvalue.id(), location, upvalue, if k > 0 { self.fib.uvheap.cells[old(self).fib.open_list[k - 1]] } else { self.fib.uvheap.cells[created_upvalue.id()] }, self.fib.uvheap.cells[created_upvalue.id()]); }
     //@end
@@ -380,7 +406,7 @@ impl Vm {
     //@  subst "self.active_fiber().current_frame().unwrap().slot_base" => "self.current_slot_base()"
     //@  subst "closure.upvalues.borrow_mut()[i] =" => "*self.fresh_slot(i) ="
     //@  subst "self.active_fiber() .current_frame() .unwrap() .closure .upvalues .borrow()[index]" => "self.enclosing_upvalue(index)"
-    //@  requires old(self).fib.wf(), old(self).ip >= 0, old(self).slot_base >= 0, old(self).slot_base + 256 < usize::MAX
+    //@  requires old(self).fib.wf(), old(self).fib.self_id == old(self).fiber_id, old(self).ip >= 0, old(self).slot_base >= 0, old(self).slot_base + 256 < usize::MAX
     //@  requires 0 <= old(self).next_count, old(self).ip + 2 + 2 * old(self).next_count <= old(self).code.len()
     //@  requires forall|i: int| 0 <= i && !old(self).op_is_local(old(self).ip + 2, i) ==> #[trigger] old(self).op_index(old(self).ip + 2, i) < old(self).enclosing.len()
     //@  ensures final(self).fib.wf()
@@ -390,7 +416,7 @@ impl Vm {
     //@  loop 0 iter it
     //@  at loop0.start proof { assert(old(self).op_index(old(self).ip + 2, i as int) == self.code[self.ip + 1] as int); assert(old(self).op_is_local(old(self).ip + 2, i as int) == (self.code[self.ip] != 0)); }
     //@  loop 0 invariant it.snapshot.start == 0, it.snapshot.end == upvalue_count, upvalue_count == self.fresh.len()
-    //@  loop 0 invariant self.fib.wf(), old(self).same_instr(self), self.ip == old(self).ip + 2 + 2 * it.index@
+    //@  loop 0 invariant self.fib.wf(), self.fib.self_id == self.fiber_id, old(self).same_instr(self), self.ip == old(self).ip + 2 + 2 * it.index@
     //@  loop 0 invariant old(self).ip >= 0, old(self).slot_base >= 0, old(self).slot_base + 256 < usize::MAX, upvalue_count == old(self).next_count, old(self).ip + 2 + 2 * old(self).next_count <= old(self).code.len()
     //@  loop 0 invariant forall|i: int| 0 <= i && !old(self).op_is_local(old(self).ip + 2, i) ==> #[trigger] old(self).op_index(old(self).ip + 2, i) < old(self).enclosing.len()
     //@  loop 0 invariant forall|i: int| 0 <= i < it.index@ && old(self).op_is_local(old(self).ip + 2, i) ==> self.fib.open_list.contains((#[trigger] self.fresh[i]).id()) && self.fib.uvheap.cells[self.fresh[i].id()].data == ObjUpvalueState::Open((old(self).slot_base + old(self).op_index(old(self).ip + 2, i)) as usize)
